@@ -740,7 +740,7 @@ pub fn gen_case(t: &mut Tape, forms: &[Form], o: &GenOpts) -> Option<NCase> {
         }
     }
 
-    Some(NCase { code: hex(&bytes), rip, gpr, rflags, xmm, fs, gs, mem_seed, patches, note, layout: 0, steps: 0 })
+    Some(NCase { code: hex(&bytes), rip, gpr, rflags, xmm, fs, gs, mem_seed, patches, note, layout: 0, steps: 0, pre: String::new() })
 }
 
 fn note_target(note: &str) -> Option<u64> {
